@@ -142,6 +142,18 @@ func (e *Exec) zzCall(fn *ssa.Function, args []Value) Value {
 	case "Realise", "RealiseCRL", "RealiseOr", "RealiseCRLOr":
 		// identity under the symbolic executor (natively: DER round trip through the real parser)
 		return args[0]
+	case "EnvLog":
+		vals := e.ghost["env"]
+		arr := &ArrayV{E: append([]Value{}, vals...)}
+		return &SliceV{O: e.newObj(arr, "envlog"), Len: cbv(uint64(len(vals)), 64), Cap: len(vals)}
+	case "Tag":
+		nm, _ := concStr(args[1])
+		if iv, ok := args[0].(*IfaceV); ok && iv.T != nil {
+			if p, ok := iv.V.(*PtrV); ok && p.O != nil {
+				p.O.Name = nm
+			}
+		}
+		return nil
 	case "SetMapOrder":
 		o, _ := concStr(args[0])
 		e.cfg.MapOrder = o
